@@ -271,6 +271,18 @@ CLAIMED = {
     technique='Coq proof (transition-system invariant over all schedules; list/arith lemmas) + systematic schedule exploration replayed in the model by vm_compute',
     ref='DESIGN.md section 5, C20'),
 }
+NOTE_UPDATES = [
+  ("Sharding metadata boxes (Partitioned/NNXMeta) are not generated.", "Sharding metadata (Partitioned / LogicallyPartitioned boxes with names, rules and an explicit mesh) through ToNNX and back is checked by oracle only (F32 found there and fixed)."),
+  ("split_rngs patterns, in_axes prefixes over nested containers, pmap not covered.", "split_rngs + vmap call histories and shared Variables under two DiffState filters are checked by oracle only (F30 found there and fixed); in_axes prefixes over nested containers, pmap not covered."),
+  ("Not in the program grammar: setup-style modules, bind/unbind, lists of submodules, share_scope.", "Not in the program grammar: setup-style modules, lists of submodules, share_scope; bind / unbind and module instances shared between parents are checked by an oracle family on instance graphs, not by the model."),
+  ("in_axes/out_axes prefix trees over containers not generated.", "In(axis) / Out(axis) markers and bound sub-modules passed through dataclass fields are checked by oracle only; in_axes/out_axes prefix trees over containers not generated."),
+  ("Keys drawn inside a jitted child are not compared (nn.jit forks RNGs: C09).", "Keys drawn inside a jitted child are not compared (nn.jit forks RNGs: C09). Lifted helper methods over setup-defined sub-modules (counters 1-3 levels down) and nn.jit helper methods are oracle families, not in the model's grammar."),
+]
+def upd_note(n):
+  for a, b in NOTE_UPDATES:
+    assert isinstance(n, str)
+    n = n.replace(a, b)
+  return n
 REASON_UNBUILT = 'check not built yet in this round (planned: see DESIGN.md section 5); nothing is claimed for it'
 
 def main():
@@ -287,7 +299,7 @@ def main():
       'replay_cmd_template': './check %s --replay {path}' % pid,
       'engine': 'coq-model-correspondence',
       'level_claimed': {'category': 'proof', 'text': c['text'], 'design_ref': c['ref']},
-      'level_note': c['note'],
+      'level_note': upd_note(c['note']),
       'technique': c['technique'],
     })
   m = {
